@@ -53,6 +53,8 @@ def stmt(op):
     if k in ('get', 'put'):
         _, n, pos = op
         return '%s #%d' % (k.upper(), n) + (', %d' % pos if pos is not None else '')
+    if k == 'tread':
+        return 'X$=INPUT$(1, #%d)' % op[1]
     raise ValueError(op)
 
 
@@ -74,6 +76,8 @@ def coq_op(op):
         return '(OpClose %s)' % z(op[1])
     if k in ('lock', 'unlock'):
         return '(%s %s %s %s)' % ('OpLock' if k == 'lock' else 'OpUnlock', z(op[1]), opt(op[2]), opt(op[3]))
+    if k == 'tread':
+        return '(OpTextRead %s)' % z(op[1])
     return '(%s %s %s)' % ('OpGet' if k == 'get' else 'OpPut', z(op[1]), opt(op[2]))
 
 
@@ -171,6 +175,18 @@ class C26(core.Check):
                      ['lock', 1, 0, None], ['lock', 1, 2 ** 25 - 2, None], ['lock', 1, 2 ** 25 - 1, None],
                      ['get', 1, 2 ** 25], ['get', 1, None], ['get', 1, 2 ** 25 + 3],
                      ['lock', 4, 1, 1], ['lock', 0, 1, 1], ['lock', 256, 1, 1], ['get', 3, 1], ['close', 300]]},
+            # C26e: OPEN-time LOCK clause of #1 forbids the access through #2 (sharing clause, no ACCESS clause)
+            {'ops': [['open', 1, 1, 'R', '', 'R', 4, False], ['open', 1, 2, 'R', '', 'SHARED', 4, False],
+                     ['get', 2, 2], ['put', 2, 2], ['close', 1], ['get', 2, 2], ['close', 2],
+                     ['open', 1, 1, 'R', '', 'W', 4, False], ['open', 1, 2, 'R', '', 'SHARED', 4, False],
+                     ['put', 2, 1], ['get', 2, 1], ['open', 1, 3, 'I', '', 'SHARED', None, False], ['tread', 3],
+                     ['close', 1], ['open', 1, 1, 'R', '', 'R', 4, False], ['tread', 3], ['get', 2, 1],
+                     ['tread', 2], ['tread', 0], ['tread', 4]]},
+            # C26f: LOCK / UNLOCK through a sequential-mode number ignore the bounds (whole file)
+            {'ops': [['open', 1, 2, 'R', '', 'SHARED', 8, False], ['put', 2, 1], ['open', 1, 1, 'I', '', 'SHARED', None, False],
+                     ['lock', 1, 1, 2], ['put', 2, 7], ['get', 2, 5], ['lock', 2, 5, 6], ['lock', 2, None, None],
+                     ['unlock', 1, 3, None], ['lock', 2, 1, 2], ['lock', 1, 7, 9], ['unlock', 2, 1, 2],
+                     ['lock', 1, None, None], ['unlock', 1, 4, 5], ['unlock', 1, None, None]]},
             # INPUT of a file that does not exist; text files lock the whole file
             {'ops': [['open', 2, 1, 'I', '', '', None, False], ['open', 2, 1, 'A', '', 'SHARED', None, False],
                      ['open', 2, 2, 'I', '', 'SHARED', None, False], ['lock', 2, 3, 4], ['lock', 1, 7, 8],
@@ -305,6 +321,9 @@ class C26(core.Check):
                     k = 'get'
                 ops.append([k, n, pos])
                 hist[k] += 1
+            elif r < 0.955:
+                ops.append(['tread', n])
+                hist['tread'] = hist.get('tread', 0) + 1
             else:
                 ops.append(['close', n if rng.random() < 0.9 else rng.choice([0, 4, 256])])
                 opened.pop(n, None)
@@ -337,7 +356,11 @@ class C26(core.Check):
                     try:
                         with core.time_limit(60):
                             s.execute(stmt(op))
-                        out += [1, errs[0]] if errs else [0, 0]
+                        if op[0] == 'tread' and (not errs or errs[0] not in (5, 52, 54, 75)):
+                            # the access was allowed; what is read depends on the data (not modelled)
+                            out += [2, 8]
+                        else:
+                            out += [1, errs[0]] if errs else [0, 0]
                     except Exception as e:  # host exception escaping the session
                         out += common.canon_exc(e)
                     out += self.observe(imp, d)
@@ -451,6 +474,17 @@ class C26(core.Check):
                 for m in ents:
                     if m != n and m in prev and set(ents[m]['locks']) != set(prev[m]['locks']):
                         return where + 'lock set of another file number changed'
+            if (k in ('get', 'put') and n in prev and prev[n]['mode'] == 'R') or \
+                    (k == 'tread' and n in prev and prev[n]['mode'] == 'I'):
+                # a LOCK READ / LOCK WRITE clause given by another number at OPEN forbids the access (75)
+                want = 'W' if k == 'put' else 'R'
+                nm0 = prev[n]['name']
+                deny = [m for m, e in prev.items() if m != n and e['name'] == nm0 and e['lock'] in ('R', 'W', 'RW')
+                        and want in e['lock']]
+                badpos = k != 'tread' and op[2] is not None and not 1 <= single(op[2]) <= 2 ** 25
+                if deny and not badpos and res != (1, 75):
+                    return where + 'file number(s) %s opened the file with a LOCK clause that forbids this access, ' \
+                                   'result %s' % (deny, res)
             if k in ('get', 'put') and n in prev and prev[n]['mode'] == 'R':
                 pos = op[2]
                 if pos is None:
